@@ -83,6 +83,9 @@ class AvroWriter(AbstractWriter):
         self.writer.flush()
 
     def close(self) -> None:
+        if self.fp:
+            # records are buffered by the fastavro writer until it is flushed
+            self.flush()
         if self.fp and not is_stdout(self.fp):
             self.fp.close()
         self.fp = None
